@@ -626,6 +626,13 @@ func (t *RaftTransaction) ListPage(ctx context.Context, prefix string, after str
 		presentKeys = append(presentKeys, nextPresentEntry)
 	}
 	verifyLimit := len(presentKeys)
+	if nextPresentEntry == "" {
+		// We reached the end of the listing. Leave room for one more entry
+		// when re-listing at apply time; otherwise the verification is
+		// truncated to the entries we saw and an entry appended after the
+		// last one by a concurrent writer goes unnoticed.
+		verifyLimit++
+	}
 	listParams, contentsHash, err := createListVerificationEntry(prefix, after, verifyLimit, presentKeys)
 	if err != nil {
 		return nil, err
